@@ -181,18 +181,23 @@ fn get_table(
                     }
                     result.push(columns.into());
 
-                    // then, we add the rows
-                    package
+                    // then, we add the rows (a table that cannot be read is
+                    // reported like a missing one; panicking would unwind
+                    // across the FFI boundary)
+                    let rows = match package
                         .select_rows(Select::table(table_name.to_str()))
-                        .expect("select")
-                        .for_each(|row| {
-                            let mut row_data: Vec<repr_c::String> =
-                                Vec::with_capacity(row.len());
-                            for index in 0..row.len() {
-                                row_data.push(row[index].to_string().into());
-                            }
-                            result.push(row_data.into());
-                        });
+                    {
+                        Ok(rows) => rows,
+                        Err(_) => return repr_c::Vec::EMPTY,
+                    };
+                    rows.for_each(|row| {
+                        let mut row_data: Vec<repr_c::String> =
+                            Vec::with_capacity(row.len());
+                        for index in 0..row.len() {
+                            row_data.push(row[index].to_string().into());
+                        }
+                        result.push(row_data.into());
+                    });
 
                     result.into()
                 }
